@@ -79,13 +79,13 @@ def cases(tier, seed, shard, nshards):
             for rep in range(tier_pick(tier, 5, 10)):
                 idx += 1
                 if idx % nshards == shard:
-                    yield {"k": pos, "doc": (idx + rep * 3 + seed) % len(DOCS), "stack": st}
+                    yield {"k": pos, "doc": (idx + rep * 3 + seed) % len(DOCS), "stack": st, "form": FORMS[rep % len(FORMS)]}
     for pos in ("unparse", "prepend"):
         for st in stacks(WATOMS, L):
             for rep in range(tier_pick(tier, 10, 10)):
                 idx += 1
                 if idx % nshards == shard:
-                    yield {"k": pos, "doc": (idx + rep * 3 + seed) % len(DOCS), "stack": st}
+                    yield {"k": pos, "doc": (idx + rep * 3 + seed) % len(DOCS), "stack": st, "form": FORMS[rep % len(FORMS)]}
     for d in range(len(DOCS)):
         for st in ([["probe", "A"]], [], [["libprobe", "L"], ["probe", "B"]]):
             for st2 in ([["probe", "B"]], []):
@@ -98,7 +98,7 @@ def cases(tier, seed, shard, nshards):
                             ("parse_stack", []), ("append", [["ship", "SeparateCoAuthors"], ["ship", "SplitNameParts"]])):
                 idx += 1
                 if idx % nshards == shard:
-                    yield {"k": "parse_file", "doc": d, "enc": enc, "pos": pos, "stack": st}
+                    yield {"k": "parse_file", "doc": d, "enc": enc, "pos": pos, "stack": st, "form": FORMS[idx % len(FORMS)], "nl": ["lf", "crlf", "cr"][idx % 3]}
     for enc in ("utf-8", "UTF8", "utf_8", None, "utf-16", "utf-8-sig"):
         for d in range(len(BOM_DOCS)):
             for pos, st in (("none", []), ("parse_stack", []), ("append", [["probe", "A"]])):
@@ -111,7 +111,7 @@ def cases(tier, seed, shard, nshards):
                 for fmt in (None, ["  ", 12, True, "\n", None]):
                     idx += 1
                     if idx % nshards == shard:
-                        yield {"k": "write_file", "doc": d, "target": target, "pos": pos, "stack": st, "fmt": fmt}
+                        yield {"k": "write_file", "doc": d, "target": target, "pos": pos, "stack": st, "fmt": fmt, "form": FORMS[idx % len(FORMS)]}
     if tier == "thorough":
         r = rng_for(seed, shard, "c20-files")
         for _ in range(6000 // nshards):
@@ -267,8 +267,22 @@ def expected_parse(text, pos, stack, log):
     return fold(lib, default_parse() + mws)       # "append" and "none"
 
 
-def call_kwargs_parse(pos, stack, log):
-    mws = [make_mw(s, log) for s in stack]
+FORMS = ["list", "tuple", "iter", "gen", "list"]
+
+
+def as_form(mws, form):
+    """The stack argument is typed Iterable[Middleware]: a list, a tuple, a one-shot iterator, a generator."""
+    if form == "tuple":
+        return tuple(mws)
+    if form == "iter":
+        return iter(mws)
+    if form == "gen":
+        return (m for m in mws)
+    return mws
+
+
+def call_kwargs_parse(pos, stack, log, form="list"):
+    mws = as_form([make_mw(s, log) for s in stack], form)
     if pos == "parse_stack":
         return {"parse_stack": mws}
     if pos == "append":
@@ -282,7 +296,7 @@ def check_parse(case, ctx):
     pos = case["k"]
     log_e, log_a = [], []
     st_e, want = sp.escape(lambda: quiet(lambda: expected_parse(text, pos, case["stack"], log_e)))
-    st_a, got = sp.escape(lambda: quiet(lambda: bibtexparser.parse_string(text, **call_kwargs_parse(pos, case["stack"], log_a))))
+    st_a, got = sp.escape(lambda: quiet(lambda: bibtexparser.parse_string(text, **call_kwargs_parse(pos, case["stack"], log_a, case.get("form", "list")))))
     ctx.ran(2)
     ctx.mon("parse_stack" if pos == "parse_stack" else "append_middleware")
     tag = ">".join(s[1][:8] for s in case["stack"])
@@ -310,8 +324,8 @@ def expected_write(lib, pos, stack, log, fmt):
     return writer.write(lib, build.fmt(fmt) if fmt else None)
 
 
-def call_kwargs_write(pos, stack, log, names=("unparse_stack", "prepend_middleware")):
-    mws = [make_mw(s, log) for s in stack]
+def call_kwargs_write(pos, stack, log, names=("unparse_stack", "prepend_middleware"), form="list"):
+    mws = as_form([make_mw(s, log) for s in stack], form)
     if pos == "unparse":
         return {names[0]: mws}
     if pos == "prepend":
@@ -330,7 +344,7 @@ def check_write(case, ctx):
     log_e, log_a = [], []
     st_e, want = sp.escape(lambda: quiet(lambda: expected_write(parsed(case["doc"]), pos, case["stack"], log_e, None)))
     lib = parsed(case["doc"])
-    st_a, got = sp.escape(lambda: quiet(lambda: bibtexparser.write_string(lib, **call_kwargs_write(pos, case["stack"], log_a))))
+    st_a, got = sp.escape(lambda: quiet(lambda: bibtexparser.write_string(lib, **call_kwargs_write(pos, case["stack"], log_a, form=case.get("form", "list")))))
     ctx.ran(2)
     ctx.mon("unparse_stack" if pos == "unparse" else "prepend_middleware")
     if st_e == "raise" or st_a == "raise":
@@ -386,6 +400,10 @@ def foreign_opens(events, target):
 def check_parse_file(case, ctx):
     import bibtexparser
     text = doc_text(case)
+    if case.get("nl") == "crlf":
+        text = text.replace("\n", "\r\n")
+    elif case.get("nl") == "cr":
+        text = text.replace("\n", "\r")
     enc_arg = case["enc"]
     enc = enc_arg or "utf-8"           # None = call parse_file without the encoding argument (documented default UTF-8)
     try:
@@ -397,13 +415,16 @@ def check_parse_file(case, ctx):
     with open(p, "wb") as f:
         f.write(data)
     log_e, log_a = [], []
-    decoded = data.decode(enc)
+    # "the file's decoded content": the text Python's text I/O yields for these bytes (decoding + universal newlines),
+    # computed here from the bytes in memory, not by opening the file
+    decoded = io.TextIOWrapper(io.BytesIO(data), encoding=enc).read()
+    ctx.state("file-newlines:" + case.get("nl", "lf"))
     st_e, want = sp.escape(lambda: quiet(lambda: bibtexparser.parse_string(decoded, **call_kwargs_parse(case["pos"], case["stack"], log_e))))
     with warnings.catch_warnings(record=True) as wlist:
         warnings.simplefilter("always", ResourceWarning)
         with audit.watch() as events:
             ekw = {"encoding": enc_arg} if enc_arg else {}
-            st_a, got = sp.escape(lambda: bibtexparser.parse_file(p, **ekw, **call_kwargs_parse(case["pos"], case["stack"], log_a)))
+            st_a, got = sp.escape(lambda: bibtexparser.parse_file(p, **ekw, **call_kwargs_parse(case["pos"], case["stack"], log_a, case.get("form", "list"))))
             opened = list(events)
         gc.collect()
         leaks = [str(w.message) for w in wlist if issubclass(w.category, ResourceWarning)]
@@ -441,7 +462,7 @@ def check_write_file(case, ctx):
     p = os.path.join(_TMP[0], f"out-{os.getpid()}.bib")
     if os.path.exists(p):
         os.remove(p)
-    kw = call_kwargs_write(case["pos"], case["stack"], log_a, names=("parse_stack", "append_middleware"))
+    kw = call_kwargs_write(case["pos"], case["stack"], log_a, names=("parse_stack", "append_middleware"), form=case.get("form", "list"))
     if fmt:
         kw["bibtex_format"] = build.fmt(fmt)
     target = case["target"]
